@@ -2,6 +2,7 @@
 package eth
 
 import (
+	"bytes"
 	"encoding/hex"
 	"fmt"
 	"sync"
@@ -237,6 +238,16 @@ func (tx *Tx) Hash() []byte {
 		tx.PrecompHash = Keccak(tx.rbuf)
 	}
 	return tx.PrecompHash
+}
+
+// Records the hash reported by the node. A transaction in a
+// cached block is shared with the tasks reading [Tx.Hash].
+func (tx *Tx) SetHash(h []byte) {
+	tx.cacheMut.Lock()
+	defer tx.cacheMut.Unlock()
+	if !bytes.Equal(tx.PrecompHash, h) {
+		tx.PrecompHash = append(Bytes(nil), h...)
+	}
 }
 
 func (tx *Tx) Signer() ([]byte, error) {
